@@ -170,6 +170,20 @@ def c06_case(args):
         rty = llsym.resolve(mod, msg_ty)
         # ---- encode: symbolic in-range field values
         vals, assume, zvars = [], [], {}
+        narrow = [(fn, t, llsym.resolve(mod, ety).n) for (fn, fid, t), ety in zip(fields, rty.es)
+                  if t[0] in ("u", "i") and llsym.resolve(mod, ety).n < t[1]]
+        if narrow:
+            ob = f"{desc}|carrier"
+            res["obligations"].append(ob)
+            fn, t, K = narrow[0]
+            path = write_replay("C06", {"kind": "c_carrier", "schema_text": schema.text(), "top": top, "field": fn,
+                                        "bits": t[1], "property": "C06"})
+            ok, text = run_replay(path)
+            if ok:
+                res["violations"].append({"replay": path, "ob": ob, "what": f"struct member {fn} of CanMsg{P} has {K} bits but the field has {t[1]} on {desc}"})
+            else:
+                res["unconfirmed"].append(f"{ob}: narrow carrier did not replay")
+            return res
         for (fn, fid, t), ety in zip(fields, rty.es):
             ety = llsym.resolve(mod, ety)
             K = ety.n
